@@ -230,7 +230,7 @@ pub fn run(run: &Run) {
     });
 
     // ---- sampled types with 13..=32 layers (incl. all-array, all-map, alternating)
-    let n = run.opts.size(4_000, 200_000);
+    let n = run.opts.size(40_000, 1_000_000);
     run.parallel("types-deep", n, |i, l| {
         let mut r = Rng::derive(seed, "c15-deep", i);
         let len = 13 + (i as usize % 20);
@@ -342,7 +342,7 @@ pub fn run(run: &Run) {
     });
 
     // ---- schemes through four feeds
-    let n = run.opts.size(1_500, 100_000);
+    let n = run.opts.size(15_000, 500_000);
     run.parallel("schemes", n, |i, l| {
         let mut r = Rng::derive(seed, "c15-scheme", i);
         let nfields = match i % 5 {
